@@ -686,4 +686,172 @@ pub proof fn lemma_deposit_keeps_ok(pools0: Map<PoolKey, PoolState>, reqs: Seq<T
 }
 pub open spec fn mentioned_set(reqs: Seq<Transaction>) -> ISet<PoolKey> { ISet::new(|k: PoolKey| mentions(reqs, k)) }
 /// the envelopes of the pool-settlement phases (declared uninterpreted in lemmas/sealenv_opaque.rs for the sealing unit)
-pub open spec fn seal_env<C: ContentAddrStore>(s: UnsealedState<C>) -> bool { deposit_weights_fit(s.transactions@) }
+pub open spec fn seal_env<C: ContentAddrStore>(s: UnsealedState<C>) -> bool { deposit_weights_fit(s.transactions@) && wd_env(s.transactions@, s.pools@, s.coins@.coins, spec_tip(s.network, s.height, 180000)) }
+
+// ---- the withdrawal phase (process_withdrawals)
+pub open spec fn withdraw_pred<C: ContentAddrStore>(s: UnsealedState<C>) -> spec_fn(Transaction) -> bool { |tx: Transaction| is_withdraw_req(s, tx) }
+pub open spec fn is_builtin_key(k: PoolKey, t902: bool) -> bool { k == pk_mel_sym() || k == pk_mel_erg() || (t902 && k == pk_erg_sym()) }
+/// liquidity of pool k that can be redeemed: everything for an ordinary pool, all but one unit for a built-in pool (whose first 10^9 belong to nobody)
+pub open spec fn liq_avail(pools: Map<PoolKey, PoolState>, k: PoolKey, t902: bool) -> int { if pools.contains_key(k) { pools[k].liqs - (if is_builtin_key(k, t902) { 1int } else { 0int }) } else { 0 } }
+/// C16 backing invariant + freshness, as the envelope of the withdrawal phase (a predicate of the block's transaction set, the pools' liquidity and the coin ids in use):
+/// whichever of the block's one-output transactions name pool k, their first-output values add up to no more than the pool's redeemable liquidity; no such transaction has a coin under index 1
+pub open spec fn wd_env(txs: Map<TxHash, Transaction>, pools: Map<PoolKey, PoolState>, c: IMap<CoinID, CoinDataHeight>, t902: bool) -> bool {
+    &&& forall|reqs: Seq<Transaction>, k: PoolKey| #[trigger] reqs_from(txs, reqs) && (forall|i: int| 0 <= i < reqs.len() ==> (#[trigger] reqs[i]).outputs@.len() == 1 && spec_req_key(reqs[i].data@) == Some(k) && reqs[i].kind == TxKind::LiqWithdraw)
+            ==> true_sum(out_vals(reqs, 0), reqs.len() as int) <= #[trigger] liq_avail(pools, k, t902)
+    &&& forall|h: TxHash| #[trigger] txs.contains_key(h) && txs[h].outputs@.len() == 1 ==> !c.contains_key(cid(txs[h], 1))
+}
+/// pools only gain liquidity and never disappear; coin ids only disappear
+pub open spec fn liqs_mono(pools0: Map<PoolKey, PoolState>, pools1: Map<PoolKey, PoolState>) -> bool { forall|k: PoolKey| #[trigger] pools0.contains_key(k) ==> pools1.contains_key(k) && pools1[k].liqs >= pools0[k].liqs }
+pub open spec fn ids_sub(c0: IMap<CoinID, CoinDataHeight>, c1: IMap<CoinID, CoinDataHeight>) -> bool { forall|id: CoinID| #[trigger] c1.contains_key(id) ==> c0.contains_key(id) }
+pub proof fn lemma_wd_env_mono(txs: Map<TxHash, Transaction>, pools0: Map<PoolKey, PoolState>, c0: IMap<CoinID, CoinDataHeight>, pools1: Map<PoolKey, PoolState>, c1: IMap<CoinID, CoinDataHeight>, t902: bool)
+    requires wd_env(txs, pools0, c0, t902), liqs_mono(pools0, pools1), ids_sub(c0, c1), forall|k: PoolKey| #[trigger] pools1.contains_key(k) ==> pools1[k].liqs >= (if is_builtin_key(k, t902) { 1int } else { 0int })
+    ensures wd_env(txs, pools1, c1, t902)
+{
+    assert forall|reqs: Seq<Transaction>, k: PoolKey| #[trigger] reqs_from(txs, reqs) && (forall|i: int| 0 <= i < reqs.len() ==> (#[trigger] reqs[i]).outputs@.len() == 1 && spec_req_key(reqs[i].data@) == Some(k) && reqs[i].kind == TxKind::LiqWithdraw)
+            implies true_sum(out_vals(reqs, 0), reqs.len() as int) <= #[trigger] liq_avail(pools1, k, t902) by {
+        assert(true_sum(out_vals(reqs, 0), reqs.len() as int) <= liq_avail(pools0, k, t902));
+        if pools0.contains_key(k) { assert(pools1.contains_key(k)); } else if pools1.contains_key(k) { }
+    }
+}
+pub open spec fn wd_reqs_ok(pools0: Map<PoolKey, PoolState>, c0: IMap<CoinID, CoinDataHeight>, reqs: Seq<Transaction>) -> bool {
+    &&& reqs_distinct(reqs)
+    &&& forall|j: int| 0 <= j < reqs.len() ==> ({ let tx = #[trigger] reqs[j];
+            tx.kind == TxKind::LiqWithdraw && tx.outputs@.len() == 1 && c0.contains_key(cid(tx, 0)) && spec_req_key(tx.data@) is Some && pools0.contains_key(swap_key(tx)) && tx.outputs@[0].value.0 > 0 })
+}
+pub open spec fn wd_q(reqs: Seq<Transaction>, k: PoolKey) -> int { true_sum(out_vals(pool_reqs(reqs, k), 0), pool_reqs(reqs, k).len() as int) }
+pub open spec fn wd_new(reqs: Seq<Transaction>, done: ISet<PoolKey>, id: CoinID) -> bool { exists|j: int| 0 <= j < reqs.len() && done.contains(swap_key(#[trigger] reqs[j])) && id == cid(reqs[j], 1) }
+/// the pools in `done` have had their withdrawals settled (wl(k), wr(k): what pool k paid out)
+pub open spec fn wds_done(pools0: Map<PoolKey, PoolState>, c0: IMap<CoinID, CoinDataHeight>, height: BlockHeight, reqs: Seq<Transaction>, done: ISet<PoolKey>,
+                          wl: spec_fn(PoolKey) -> int, wr: spec_fn(PoolKey) -> int, pools1: Map<PoolKey, PoolState>, c1: IMap<CoinID, CoinDataHeight>) -> bool {
+    &&& pools1.dom() == pools0.dom()
+    &&& forall|k: PoolKey| #[trigger] pools0.contains_key(k) ==> (if done.contains(k) { pool_withdrawn(pools0[k], pools1[k], wd_q(reqs, k), wl(k), wr(k)) && 0 <= wl(k) <= u128::MAX && 0 <= wr(k) <= u128::MAX
+                && share_sum(wl(k), out_vals(pool_reqs(reqs, k), 0), wd_q(reqs, k), pool_reqs(reqs, k).len() as int) <= wl(k)
+                && share_sum(wr(k), out_vals(pool_reqs(reqs, k), 0), wd_q(reqs, k), pool_reqs(reqs, k).len() as int) <= wr(k) } else { pools1[k] == pools0[k] })
+    &&& forall|id: CoinID| #[trigger] c1.contains_key(id) <==> (c0.contains_key(id) || wd_new(reqs, done, id))
+    &&& forall|j: int| 0 <= j < reqs.len() ==> ({ let tx = #[trigger] reqs[j]; let k = swap_key(tx);
+            if done.contains(k) { wd_coins(tx, k, wl(k), wr(k), wd_q(reqs, k), height, c1[cid(tx, 0)], c1[cid(tx, 1)]) } else { c1[cid(tx, 0)] == c0[cid(tx, 0)] } })
+    &&& forall|id: CoinID| c1.contains_key(id) && !(exists|j: int| 0 <= j < reqs.len() && (id == cid(#[trigger] reqs[j], 0) || id == cid(reqs[j], 1))) ==> #[trigger] c1[id] == c0[id]
+}
+pub proof fn lemma_selected_withdrawals<C: ContentAddrStore>(s: UnsealedState<C>, reqs: Seq<Transaction>)
+    requires selected(s.transactions@, reqs, withdraw_pred(s)), txs_keyed(s.transactions@)
+    ensures wd_reqs_ok(s.pools@, s.coins@.coins, reqs), forall|j: int| 0 <= j < reqs.len() ==> is_withdraw_req(s, #[trigger] reqs[j])
+{
+    let txs = s.transactions@;
+    let ks = choose|ks: Seq<TxHash>| #[trigger] is_enum(txs, ks) && reqs == Seq::new(ks.len(), |i: int| txs[ks[i]]).filter(withdraw_pred(s));
+    let items = Seq::new(ks.len(), |i: int| txs[ks[i]]);
+    assert(reqs_distinct(items)) by {
+        assert forall|i: int, j: int| 0 <= i < j < items.len() implies spec_txhash(#[trigger] items[i]) != spec_txhash(#[trigger] items[j]) by {
+            assert(ks.contains(ks[i]) && ks.contains(ks[j])); assert(txs.contains_key(ks[i]) && txs.contains_key(ks[j]));
+            assert(spec_txhash(txs[ks[i]]) == ks[i] && spec_txhash(txs[ks[j]]) == ks[j]);
+        }
+    }
+    lemma_filter_distinct(items, withdraw_pred(s));
+    lemma_filter_mem(items, withdraw_pred(s));
+    assert forall|j: int| 0 <= j < reqs.len() implies is_withdraw_req(s, #[trigger] reqs[j]) by { assert(reqs.contains(reqs[j])); assert(withdraw_pred(s)(reqs[j])); }
+}
+/// the requests of pool k satisfy the single-pool preconditions (under the phase envelope)
+pub proof fn lemma_pool_wds_pre(txs: Map<TxHash, Transaction>, pools0: Map<PoolKey, PoolState>, c0: IMap<CoinID, CoinDataHeight>, reqs: Seq<Transaction>, k: PoolKey, t902: bool)
+    requires wd_reqs_ok(pools0, c0, reqs), mentions(reqs, k), wd_env(txs, pools0, c0, t902), reqs_from(txs, pool_reqs(reqs, k))
+    ensures withdrawals_pre(pool_reqs(reqs, k), k), pools0.contains_key(k), wd_q(reqs, k) <= liq_avail(pools0, k, t902),
+            forall|i: int| 0 <= i < pool_reqs(reqs, k).len() ==> !c0.contains_key(cid(#[trigger] pool_reqs(reqs, k)[i], 1))
+{
+    let rk = pool_reqs(reqs, k);
+    lemma_filter_mem(reqs, for_pool(k));
+    lemma_filter_distinct(reqs, for_pool(k));
+    assert forall|i: int| 0 <= i < rk.len() implies (#[trigger] rk[i]).outputs@.len() == 1 && rk[i].outputs@[0].value.0 > 0 && spec_req_key(rk[i].data@) == Some(k) && rk[i].kind == TxKind::LiqWithdraw
+        && !c0.contains_key(cid(rk[i], 1)) by {
+        assert(rk.contains(rk[i])); let j = choose|j: int| 0 <= j < reqs.len() && reqs[j] == rk[i]; assert(for_pool(k)(reqs[j]));
+        assert(txs.contains_key(spec_txhash(rk[i])) && txs[spec_txhash(rk[i])] == rk[i]);
+    }
+    let j0 = choose|j: int| 0 <= j < reqs.len() && spec_req_key((#[trigger] reqs[j]).data@) == Some(k);
+    assert(swap_key(reqs[j0]) == k); assert(for_pool(k)(reqs[j0])); assert(reqs.contains(reqs[j0])); assert(rk.contains(reqs[j0]));
+    assert(true_sum(out_vals(rk, 0), rk.len() as int) <= liq_avail(pools0, k, t902));
+}
+pub proof fn lemma_wds_done_step(pools0: Map<PoolKey, PoolState>, c0: IMap<CoinID, CoinDataHeight>, height: BlockHeight, reqs: Seq<Transaction>, done: ISet<PoolKey>,
+        wl: spec_fn(PoolKey) -> int, wr: spec_fn(PoolKey) -> int, pb: Map<PoolKey, PoolState>, cb: IMap<CoinID, CoinDataHeight>, k: PoolKey, p1: Map<PoolKey, PoolState>, c1: IMap<CoinID, CoinDataHeight>, l: int, r: int)
+    requires wd_reqs_ok(pools0, c0, reqs), wds_done(pools0, c0, height, reqs, done, wl, wr, pb, cb), !done.contains(k), mentions(reqs, k), pools0.contains_key(k),
+             withdrawals_result(pb, cb, pool_reqs(reqs, k), k, height, p1, c1, l, r)
+    ensures wds_done(pools0, c0, height, reqs, done.insert(k), |k2: PoolKey| if k2 == k { l } else { wl(k2) }, |k2: PoolKey| if k2 == k { r } else { wr(k2) }, p1, c1)
+{
+    broadcast use axiom_txhash_inj;
+    let rk = pool_reqs(reqs, k); let d2 = done.insert(k); let n = rk.len() as int; let q = wd_q(reqs, k);
+    let wl2 = |k2: PoolKey| if k2 == k { l } else { wl(k2) }; let wr2 = |k2: PoolKey| if k2 == k { r } else { wr(k2) };
+    lemma_filter_mem(reqs, for_pool(k));
+    assert(pb[k] == pools0[k]);
+    assert(p1.dom() =~= pools0.dom());
+    assert forall|j: int, i: int, w: int, w2: int| 0 <= j < reqs.len() && 0 <= i < rk.len() && (w == 0 || w == 1) && (w2 == 0 || w2 == 1) && #[trigger] cid(reqs[j], w) == #[trigger] cid(rk[i], w2) implies reqs[j] == rk[i] && w == w2 by {
+        assert(rk.contains(rk[i])); let qq = choose|qq: int| 0 <= qq < reqs.len() && reqs[qq] == rk[i];
+        assert(spec_txhash(reqs[j]) == spec_txhash(reqs[qq]));
+        if j != qq { if j < qq { assert(spec_txhash(reqs[j]) != spec_txhash(reqs[qq])); } else { assert(spec_txhash(reqs[qq]) != spec_txhash(reqs[j])); } }
+    }
+    // ids touched by this step: first and second output ids of the requests of pool k
+    assert forall|id: CoinID| true implies (#[trigger] wd_id(rk, n, id) <==> exists|j: int| 0 <= j < reqs.len() && swap_key(#[trigger] reqs[j]) == k && (id == cid(reqs[j], 0) || id == cid(reqs[j], 1))) by {
+        if wd_id(rk, n, id) { let i = choose|i: int| 0 <= i < n && (id == cid(#[trigger] rk[i], 0) || id == cid(rk[i], 1)); assert(rk.contains(rk[i])); let j = choose|j: int| 0 <= j < reqs.len() && reqs[j] == rk[i]; assert(for_pool(k)(reqs[j])); assert(swap_key(reqs[j]) == k); }
+        if exists|j: int| 0 <= j < reqs.len() && swap_key(#[trigger] reqs[j]) == k && (id == cid(reqs[j], 0) || id == cid(reqs[j], 1)) {
+            let j = choose|j: int| 0 <= j < reqs.len() && swap_key(#[trigger] reqs[j]) == k && (id == cid(reqs[j], 0) || id == cid(reqs[j], 1));
+            assert(for_pool(k)(reqs[j])); assert(reqs.contains(reqs[j])); assert(rk.contains(reqs[j])); let i = choose|i: int| 0 <= i < rk.len() && rk[i] == reqs[j]; assert(0 <= i < n && (id == cid(rk[i], 0) || id == cid(rk[i], 1))); }
+    }
+    assert forall|id: CoinID| true implies (#[trigger] wd_new(reqs, d2, id) <==> (wd_new(reqs, done, id) || exists|j: int| 0 <= j < reqs.len() && swap_key(#[trigger] reqs[j]) == k && id == cid(reqs[j], 1))) by {
+        if wd_new(reqs, d2, id) { let j = choose|j: int| 0 <= j < reqs.len() && d2.contains(swap_key(#[trigger] reqs[j])) && id == cid(reqs[j], 1); if swap_key(reqs[j]) != k { assert(done.contains(swap_key(reqs[j]))); assert(wd_new(reqs, done, id)); } }
+        if wd_new(reqs, done, id) { let j = choose|j: int| 0 <= j < reqs.len() && done.contains(swap_key(#[trigger] reqs[j])) && id == cid(reqs[j], 1); assert(d2.contains(swap_key(reqs[j]))); }
+        if exists|j: int| 0 <= j < reqs.len() && swap_key(#[trigger] reqs[j]) == k && id == cid(reqs[j], 1) { let j = choose|j: int| 0 <= j < reqs.len() && swap_key(#[trigger] reqs[j]) == k && id == cid(reqs[j], 1); assert(d2.contains(swap_key(reqs[j]))); }
+    }
+    assert forall|id: CoinID| #[trigger] c1.contains_key(id) <==> (c0.contains_key(id) || wd_new(reqs, d2, id)) by {
+        if wd_id(rk, n, id) {
+            let j = choose|j: int| 0 <= j < reqs.len() && swap_key(#[trigger] reqs[j]) == k && (id == cid(reqs[j], 0) || id == cid(reqs[j], 1));
+            if id == cid(reqs[j], 0) { assert(c0.contains_key(id)); } else { assert(d2.contains(swap_key(reqs[j])) && id == cid(reqs[j], 1)); assert(wd_new(reqs, d2, id)); }
+        }
+        assert(cb.contains_key(id) <==> (c0.contains_key(id) || wd_new(reqs, done, id)));
+    }
+    assert forall|j: int| 0 <= j < reqs.len() implies ({ let tx = #[trigger] reqs[j]; let kk = swap_key(tx);
+            if d2.contains(kk) { wd_coins(tx, kk, wl2(kk), wr2(kk), wd_q(reqs, kk), height, c1[cid(tx, 0)], c1[cid(tx, 1)]) } else { c1[cid(tx, 0)] == c0[cid(tx, 0)] } }) by {
+        let tx = reqs[j]; let kk = swap_key(tx);
+        if kk == k {
+            assert(for_pool(k)(tx)); assert(reqs.contains(tx)); assert(rk.contains(tx));
+            let i = choose|i: int| 0 <= i < rk.len() && rk[i] == tx;
+            assert(wd_coins(rk[i], k, l, r, q, height, c1[cid(rk[i], 0)], c1[cid(rk[i], 1)]));
+        } else {
+            assert(!wd_id(rk, n, cid(tx, 0))) by { if wd_id(rk, n, cid(tx, 0)) { let j2 = choose|j2: int| 0 <= j2 < reqs.len() && swap_key(#[trigger] reqs[j2]) == k && (cid(tx, 0) == cid(reqs[j2], 0) || cid(tx, 0) == cid(reqs[j2], 1));
+                if j != j2 { if j < j2 { assert(spec_txhash(reqs[j]) != spec_txhash(reqs[j2])); } else { assert(spec_txhash(reqs[j2]) != spec_txhash(reqs[j])); } } } }
+            assert(!wd_id(rk, n, cid(tx, 1))) by { if wd_id(rk, n, cid(tx, 1)) { let j2 = choose|j2: int| 0 <= j2 < reqs.len() && swap_key(#[trigger] reqs[j2]) == k && (cid(tx, 1) == cid(reqs[j2], 0) || cid(tx, 1) == cid(reqs[j2], 1));
+                if j != j2 { if j < j2 { assert(spec_txhash(reqs[j]) != spec_txhash(reqs[j2])); } else { assert(spec_txhash(reqs[j2]) != spec_txhash(reqs[j])); } } } }
+            assert(c0.contains_key(cid(tx, 0))); assert(cb.contains_key(cid(tx, 0))); assert(c1.contains_key(cid(tx, 0)));
+            assert(c1[cid(tx, 0)] == cb[cid(tx, 0)]);
+            if done.contains(kk) { assert(wd_new(reqs, done, cid(tx, 1))); assert(cb.contains_key(cid(tx, 1))); assert(c1.contains_key(cid(tx, 1))); assert(c1[cid(tx, 1)] == cb[cid(tx, 1)]); }
+        }
+    }
+    assert forall|id: CoinID| c1.contains_key(id) && !(exists|j: int| 0 <= j < reqs.len() && (id == cid(#[trigger] reqs[j], 0) || id == cid(reqs[j], 1))) implies #[trigger] c1[id] == c0[id] by {
+        assert(!wd_id(rk, n, id));
+        assert(c1[id] == cb[id]);
+    }
+}
+/// a pool that paid out a withdrawal within its redeemable liquidity keeps pools_ok; a built-in pool stays live
+pub proof fn lemma_withdraw_keeps_ok(p0: PoolState, p1: PoolState, q: int, wl: int, wr: int, builtin: bool)
+    requires (pool_live(p0) && p0.liqs > 0) || (p0.lefts == 0 && p0.rights == 0 && p0.liqs == 0), pool_withdrawn(p0, p1, q, wl, wr), 1 <= q <= p0.liqs - (if builtin { 1int } else { 0int })
+    ensures (pool_live(p1) && p1.liqs > 0) || (p1.lefts == 0 && p1.rights == 0 && p1.liqs == 0), builtin ==> pool_live(p1)
+{
+    if p1.liqs != 0 {
+        let lq = p0.liqs as int; let a = p0.lefts as int; let b = p0.rights as int;
+        assert((a * q) / lq < a) by { vstd::arithmetic::div_mod::lemma_fundamental_div_mod(a * q, lq); vstd::arithmetic::div_mod::lemma_mod_bound(a * q, lq);
+            assert(a * q < a * lq) by (nonlinear_arith) requires a > 0, q < lq;
+            let d = (a * q) / lq; assert(d < a) by (nonlinear_arith) requires a * q == lq * d + (a * q) % lq, 0 <= (a * q) % lq, a * q < a * lq, lq > 0; }
+        assert((b * q) / lq < b) by { vstd::arithmetic::div_mod::lemma_fundamental_div_mod(b * q, lq); vstd::arithmetic::div_mod::lemma_mod_bound(b * q, lq);
+            assert(b * q < b * lq) by (nonlinear_arith) requires b > 0, q < lq;
+            let d = (b * q) / lq; assert(d < b) by (nonlinear_arith) requires b * q == lq * d + (b * q) % lq, 0 <= (b * q) % lq, b * q < b * lq, lq > 0; }
+    }
+}
+pub proof fn lemma_wd_q_pos(reqs: Seq<Transaction>, k: PoolKey)
+    requires withdrawals_pre(pool_reqs(reqs, k), k) ensures wd_q(reqs, k) >= 1
+{
+    let rk = pool_reqs(reqs, k); let v = out_vals(rk, 0);
+    lemma_true_sum_ge(v, rk.len() as int, 0);
+}
+pub proof fn lemma_true_sum_ge(s: Seq<int>, n: int, i: int)
+    requires 0 <= i < n <= s.len(), forall|q: int| 0 <= q < s.len() ==> #[trigger] s[q] >= 0 ensures true_sum(s, n) >= s[i] decreases n
+{ lemma_true_sum_nonneg(s, n - 1); if i < n - 1 { lemma_true_sum_ge(s, n - 1, i); } }
+/// live built-in pools have at least one unit of liquidity (pools_ok)
+pub proof fn lemma_builtin_liqs<C: ContentAddrStore>(s: UnsealedState<C>)
+    requires pools_ok(s.pools@), builtins_live(s)
+    ensures forall|k: PoolKey| #[trigger] s.pools@.contains_key(k) ==> s.pools@[k].liqs >= (if is_builtin_key(k, spec_tip(s.network, s.height, 180000)) { 1int } else { 0int })
+{
+}
